@@ -63,8 +63,182 @@ fn msg(id: u64, qr: bool, q: u64, rcode: u64, body: bool, ka: i64) -> Value {
     json!({"id": id, "qr": qr, "q": q, "rcode": rcode, "body": body, "tc": false, "ka": ka})
 }
 
+
+/// redundant / load_balancer over scripted upstreams: seeded scenarios,
+/// events: reset, add, submit, asked, resolve, done, tick.
+fn record_balance(path: &str, seed: u64, nscen: u64) {
+    use domain::net::client::request::{ComposeRequest, RequestMessage, SendRequest};
+    use domain::net::client::{load_balancer, redundant};
+    use std::sync::{Arc, Mutex};
+    type Req = RequestMessage<Vec<u8>>;
+    enum Bal {
+        Lb(load_balancer::Connection<Req>),
+        Red(redundant::Connection<Req>),
+    }
+    std::panic::set_hook(Box::new(|_| {}));
+    let mut rng = Rng::new(seed);
+    let mut w = TraceWriter::create(path);
+    let rt = runtime();
+    let mut panics = 0u64;
+    rt.block_on(async {
+        for scen in 0..nscen {
+            // the first scenarios are fixed: no upstream at all; one upstream
+            // with max_burst 1 and a quick series of requests
+            let (lb, n, fixed_mb) = match scen {
+                0 => (true, 0usize, None),
+                1 => (false, 0usize, None),
+                2 => (true, 1usize, Some(1i64)),
+                3 => (true, 2usize, Some(0i64)),
+                _ => (rng.chance(2, 3), rng.below(4) as usize, None),
+            };
+            let (de, dr, ds) = (rng.chance(1, 2), rng.chance(1, 2), rng.chance(1, 2));
+            let nreq = 4u64;
+            let act = Activity::default();
+            let mut clock = Clock::new();
+            let shared = Arc::new(Mutex::new(UpShared::default()));
+            w.event(json!({"ev": "reset", "kind": if lb { "lb" } else { "red" },
+                           "de": de, "dr": dr, "ds": ds, "nreq": nreq}));
+            let (bal, th) = if lb {
+                let mut cfg = load_balancer::Config::default();
+                cfg.set_defer_transport_error(de);
+                cfg.set_defer_refused(dr);
+                cfg.set_defer_servfail(ds);
+                let (c, t) = load_balancer::Connection::<Req>::with_config(cfg);
+                (Bal::Lb(c), tokio::spawn(counted(t.run(), &act)))
+            } else {
+                let mut cfg = redundant::Config::default();
+                cfg.set_defer_transport_error(de);
+                cfg.set_defer_refused(dr);
+                cfg.set_defer_servfail(ds);
+                let (c, t) = redundant::Connection::<Req>::with_config(cfg);
+                (Bal::Red(c), tokio::spawn(counted(t.run(), &act)))
+            };
+            for u in 1..=n {
+                let up = Box::new(MockUpstream { u, shared: shared.clone(), act: act.clone() });
+                let (mb, iv) = if lb {
+                    (fixed_mb.unwrap_or(*rng.pick(&[-1i64, -1, 0, 1, 2])), 1 + rng.below(2))
+                } else {
+                    (-1, 1)
+                };
+                match &bal {
+                    Bal::Lb(c) => {
+                        let mut cc = load_balancer::ConnConfig::new();
+                        cc.set_max_burst(if mb < 0 { None } else { Some(mb as u64) });
+                        // half a tick short: `elapsed > burst_interval` is decided on whole ticks
+                        cc.set_burst_interval(TICK * (iv as u32) - TICK / 2);
+                        let _ = c.add(&format!("up{}", u), &cc, up).await;
+                    }
+                    Bal::Red(c) => {
+                        let _ = c.add(up).await;
+                    }
+                }
+                w.event(json!({"ev": "add", "mb": mb, "iv": iv}));
+            }
+            settle(&act).await;
+            let comp: Arc<Mutex<Vec<(u64, Value)>>> = Arc::new(Mutex::new(vec![]));
+            let mut handles: Vec<(u64, tokio::task::JoinHandle<()>)> = vec![];
+            let mut seen_asked = 0usize;
+            let mut seen_done = 0usize;
+            let mut next_r = 1u64;
+            let nops = 10 + rng.below(10);
+            for step in 0..nops + 1 {
+                let last = step == nops;
+                // drop pending entries nobody waits for any more
+                shared.lock().unwrap().pending.retain(|p| !p.tx.is_closed());
+                let npend = shared.lock().unwrap().pending.len();
+                let roll = rng.below(100);
+                let quick = scen == 2 || scen == 3;
+                let ev;
+                if !last && next_r <= nreq && (roll < 35 || (quick && next_r <= 3)) {
+                    let r = next_r;
+                    next_r += 1;
+                    let mut req = build_request(r);
+                    req.header_mut().set_id(100 + r as u16);
+                    let mut gr = match &bal {
+                        Bal::Lb(c) => c.send_request(req),
+                        Bal::Red(c) => c.send_request(req),
+                    };
+                    let comp2 = comp.clone();
+                    let h = tokio::spawn(counted(
+                        async move {
+                            let res = gr.get_response().await;
+                            comp2.lock().unwrap().push((r, balance_outcome(&res, r)));
+                        },
+                        &act,
+                    ));
+                    handles.push((r, h));
+                    ev = json!({"ev": "submit", "r": r});
+                } else if npend > 0 && (last || roll < 75) {
+                    if last {
+                        // wind up: every upstream that was asked hands back something
+                        // (one at a time, each is its own event below)
+                    }
+                    let i = rng.below(npend as u64) as usize;
+                    let p = shared.lock().unwrap().pending.remove(i);
+                    let k = *rng.pick(&["answer", "answer", "servfail", "refused", "error"]);
+                    let _ = p.tx.send(k.to_string());
+                    ev = json!({"ev": "resolve", "u": p.u, "r": p.r, "k": k});
+                } else {
+                    clock.advance(TICK).await;
+                    ev = json!({"ev": "tick"});
+                }
+                let hang = !settle(&act).await;
+                w.event(ev);
+                {
+                    let g = shared.lock().unwrap();
+                    for (u, r) in g.asked[seen_asked..].iter() {
+                        w.event(json!({"ev": "asked", "u": u, "r": r}));
+                    }
+                    seen_asked = g.asked.len();
+                }
+                {
+                    let g = comp.lock().unwrap();
+                    for (r, o) in g[seen_done..].iter() {
+                        let mut e = o.clone();
+                        e["ev"] = json!("done");
+                        e["r"] = json!(r);
+                        w.event(e);
+                    }
+                    seen_done = g.len();
+                }
+                // a request future that panicked is an observation
+                let mut i = 0;
+                while i < handles.len() {
+                    if handles[i].1.is_finished() {
+                        let (r, h) = handles.remove(i);
+                        if h.await.is_err() {
+                            panics += 1;
+                            w.event(json!({"ev": "done", "r": r, "ok": false, "src": 0,
+                                           "kind": "panic", "own": false, "panic": true}));
+                        }
+                    } else {
+                        i += 1;
+                    }
+                }
+                if th.is_finished() {
+                    w.event(json!({"ev": "transport_ended"}));
+                }
+                if hang || !clock.in_step() {
+                    w.event(json!({"ev": "harness_trouble", "hang": hang}));
+                }
+            }
+        }
+        w.event(json!({"ev": "reset", "kind": "lb", "de": false, "dr": false, "ds": false, "nreq": 1}));
+    });
+    let n = w.finish();
+    println!("{}", json!({"events": n, "panics": panics}));
+}
+
 fn main() {
     let args: Vec<String> = std::env::args().collect();
+    if args[1] == "balance" {
+        if !freeze_clock() {
+            eprintln!("clock interposition does not work on this platform");
+            std::process::exit(2);
+        }
+        record_balance(&args[2], args[3].parse().unwrap(), args[4].parse().unwrap());
+        return;
+    }
     let path = &args[1];
     let seed: u64 = args[2].parse().unwrap();
     let nevents: u64 = args[3].parse().unwrap();
